@@ -14,6 +14,8 @@ thread_local! {
     static QUIET: std::cell::Cell<bool> = const { std::cell::Cell::new(false) };
 }
 
+pub static LOUD: std::sync::atomic::AtomicBool = std::sync::atomic::AtomicBool::new(false);
+
 pub fn install_hook() {
     let default = std::panic::take_hook();
     std::panic::set_hook(Box::new(move |info| {
@@ -27,7 +29,9 @@ pub fn install_hook() {
         let (file, line) = info.location().map(|l| (l.file().to_string(), l.line())).unwrap_or(("?".into(), 0));
         let quiet = QUIET.with(|q| q.get());
         LAST.with(|l| *l.borrow_mut() = Some(PanicInfo { msg, file, line }));
-        if !quiet {
+        // in the classification child (`exec-case`) every panic is printed: a non-unwinding one aborts the
+        // process and the supervisor keys the abort on what was printed
+        if !quiet || LOUD.load(std::sync::atomic::Ordering::SeqCst) {
             default(info)
         }
     }));
